@@ -686,7 +686,7 @@ def protocol_reader_writer(ctx: Ctx, rep: Report, prot_tables=None, platforms=No
     return setter
 
 
-def grammar_reads_protocols(ctx: Ctx, rep: Report, prot_tables, rid: str = "R09.13") -> None:
+def grammar_reads_protocols(ctx: Ctx, rep: Report, prot_tables=None, rid: str = "R09.13") -> None:
     """What `Protocol.line` writes, the ACE grammar reads: every protocol name of every table (and every number 0..255)
     is matched as the protocol field of an extended entry (a field pattern of letters-or-digits refuses `icmp6`, `ipv6`)."""
     import re as _re2
@@ -694,6 +694,8 @@ def grammar_reads_protocols(ctx: Ctx, rep: Report, prot_tables, rid: str = "R09.
     from .c01 import regex_pieces as _rp
 
     rep.rule(rid)
+    if prot_tables is None:
+        prot_tables = {k: v for k, v in ctx.folder.module_env(ctx.prog.module("protocol")).items() if isinstance(v, dict) and k.startswith("PROTOCOLS_")}
     pe2 = ctx.func("parsers.parse_ace_extended")
     rep.instance()
     try:
